@@ -1,0 +1,28 @@
+"""
+Verification hooks (read-only instrumentation).
+
+Nothing in this module changes the behaviour of the library. The hooks are
+disabled unless the environment variable ``BIOBALM_VERIF`` is set to ``1``
+*and* a sink has been installed by a test harness.
+"""
+
+from __future__ import annotations
+
+import os
+from typing import Any, Callable
+
+ENABLED: bool = os.environ.get("BIOBALM_VERIF") == "1"
+
+_sink: Callable[[str, dict[str, Any]], None] | None = None
+
+
+def set_sink(sink: Callable[[str, dict[str, Any]], None] | None) -> None:
+    """Install (or remove) the function that receives the emitted events."""
+    global _sink
+    _sink = sink
+
+
+def emit(event: str, **fields: Any) -> None:
+    """Report an event to the installed sink (no-op if hooks are disabled)."""
+    if ENABLED and _sink is not None:
+        _sink(event, fields)
